@@ -316,10 +316,42 @@ def rows(g, start=None, stop=None, max_paths=4000, want_calls=None, max_visits=1
                     row.calls.append((name, args, n))
             elif t["k"] == "return" and last and n.frame is g.root:
                 row.ret = ir.simplify(pr.local(n.frame, 0, i, -1))
-        # a pure condition evaluated twice on one path cannot have two different outcomes
+        # a pure condition evaluated twice on one path cannot have two different outcomes -- unless what it reads was changed in
+        # between: a store to a field it mentions, or a call that was lent `&mut` that field / `&mut self`
+        pos = {id(nd): i for i, nd in enumerate(nodes)}
+        clobbers = []           # (path position, field name | '*')
+        for (pl, val, nd, s_) in row.writes:
+            if pl[0] == 'field':
+                clobbers.append((pos.get(id(nd), 0), str(pl[2])))
+        for i, nd in enumerate(nodes):
+            t_ = nd.term
+            if t_["k"] != "call" or nd.noise():
+                continue
+            for a in t_["args"]:
+                pl_ = a.get("move") or a.get("copy")
+                if not isinstance(pl_, dict) or "p" in pl_:
+                    continue
+                ty_ = nd.body.locals[pl_["l"]].get("ty")
+                ty_ = ty_.get("s", "") if isinstance(ty_, dict) else (ty_ or "")
+                if not ty_.startswith("&mut") and not ty_.startswith("&'") or "mut " not in ty_[:12]:
+                    continue
+                ae = ir.peel(pr.operand(nd.frame, a, i, -1))
+                if ae[0] == 'param' and ae[2] == 'self':
+                    clobbers.append((i, '*'))
+                elif ae[0] == 'field':
+                    clobbers.append((i, str(ae[2])))
         seen = {}
+        seen_at = {}
         feasible = True
         for (e, lab, n) in row.conds:
+            here = pos.get(id(n), 0)
+            if clobbers:
+                flds = {str(x[2]) for x in ir.walk(e) if x[0] == 'field'}
+                for k_ in list(seen):
+                    kf = {str(x[2]) for x in ir.walk(k_) if isinstance(x, tuple) and x and x[0] == 'field'} if isinstance(k_, tuple) else set()
+                    if any(seen_at[k_] <= ci < here and (cf == '*' and kf or cf in kf) for (ci, cf) in clobbers):
+                        del seen[k_]
+                        del seen_at[k_]
             c = ir.const_value(e)
             pe0 = ir.peel(e, casts=False)
             if c is None and pe0[0] == 'bin' and pe0[1] in ('Eq', 'Ne', 'Lt', 'Le', 'Gt', 'Ge'):
@@ -362,6 +394,7 @@ def rows(g, start=None, stop=None, max_paths=4000, want_calls=None, max_visits=1
                         feasible = False
                         break
                 seen[k] = v
+                seen_at[k] = here
         if feasible:
             out.append(row)
     return out
